@@ -300,6 +300,16 @@ def run(prog: Program, rep, tier: str) -> None:
                     continue
                 rep.fail("certain-crash-attribute", fi.qualname, _stmt_text(fi, n), f"VIOLATED: `{U(n)}`: no class in the hierarchy of {cls.name} defines `{n.attr}` (AttributeError when executed)", fi.loc(n))
     rep.pin("self attribute loads examined", n_self, 400)
+    # containers changed while being iterated over: RuntimeError("dictionary changed size during iteration") for dicts / sets
+    from .common import mutation_while_iterating
+    n_mut = 0
+    for fi in funcs:
+        for lp, hit, ctxt in mutation_while_iterating(fi):
+            n_mut += 1
+            rep.fail("no-mutation-while-iterating", fi.qualname, short(hit), f"VIOLATED: `{U(hit)[:60]}` changes `{ctxt}` inside `for .. in {U(lp.iter)[:40]}` and the loop goes on: "
+                     f"a dict / set raises RuntimeError at the next step (a list silently skips elements); iterate over a snapshot instead", fi.loc(hit))
+    if not n_mut:
+        rep.ok("no-mutation-while-iterating", "all in-scope functions", "no loop changes the container it iterates over")
 
     # ---- (2) raise inventory ------------------------------------------------------------------------------
     x = ExcFlow(prog)
